@@ -741,6 +741,17 @@ func main() {
 			}
 		}
 	}
+	// directories in which the versions of one module are not neighbours in
+	// directory order (a /v2 module sorts between v1 and v3+incompatible of its
+	// root module; escaped upper-case letters sort before lower-case ones)
+	fs := []string{"go.mod", "x.go"}
+	dirs = append(dirs,
+		[]modVer{{"a.com/m", "v1.0.0", "txt", fs}, {"a.com/m/v2", "v2.0.0", "txtar", fs}, {"a.com/m", "v3.0.0+incompatible", "dir", fs}},
+		[]modVer{{"a.com/m", "v3.0.0+incompatible", "txt", fs}, {"a.com/m/v2", "v2.1.0", "dir", nil}, {"a.com/m", "v1.2.3-pre.1", "txtar", fs}, {"a.com/m", "v2.0.0+incompatible", "txt", nil}, {"a.com/m/v2", "v2.0.0", "txt", fs}},
+		[]modVer{{"a.com/m", "v1.0.0", "dir", fs}, {"a.com/m/v2", "v2.0.0", "dir", fs}, {"a.com/m", "v3.0.0+incompatible", "dir", fs}, {"a.com/m", "v4.1.0+incompatible", "txtar", fs}},
+		[]modVer{{"a.com/vault", "v1.0.0", "txt", fs}, {"a.com/v", "v1.0.0", "txt", fs}, {"a.com/vault", "v1.1.0", "txtar", fs}, {"a.com/v/v2", "v2.0.0", "txt", fs}, {"a.com/v", "v3.0.0+incompatible", "txt", fs}},
+		[]modVer{{"a.com/Mixed/Case", "v1.0.0", "txt", fs}, {"a.com/Mixed/Case/v2", "v2.0.0", "txt", fs}, {"a.com/Mixed/Case", "v3.0.0+incompatible", "dir", fs}, {"a.com/m", "v1.0.0", "txt", fs}},
+	)
 	st := &stats{}
 	var done int64
 	var next int64 = -1
